@@ -16,6 +16,7 @@ import (
 	"path"
 	"path/filepath"
 	"regexp"
+	"runtime"
 	"runtime/debug"
 	"sort"
 	"strconv"
@@ -40,6 +41,7 @@ type Inv struct {
 	NChunks int             `json:"nchunks"`
 	Couts   json.RawMessage `json:"couts"`
 	Outs    json.RawMessage `json:"outs"`
+	Stage   string          `json:"stage"`
 }
 
 func (i *Inv) Key() string { return i.Inst + "/" + i.Kind + "/" + strconv.Itoa(i.Chunk) }
@@ -74,6 +76,16 @@ type Spec struct {
 	// Freeze: once the faulty job has ended no other job makes progress until
 	// mrp has noticed the failure and exited (so that jobs are still running then)
 	Freeze bool `json:"freeze"`
+	// Files: stage code writes the files its outputs name (plus an unreferenced
+	// file and a temporary file), consumers check their file arguments, and at
+	// completion the final VDR sweep and post-processing run as in mrp.
+	Files bool `json:"files"`
+	// VdrJitter: asynchronous cleanup goroutines are delayed by up to this many
+	// microseconds (seeded) before they take the fork's storage lock.
+	VdrJitter int `json:"vdr_jitter"`
+	// PhysPaths: the pipestance lives below a symbolic link and stage code
+	// reports the fully resolved names of the files it wrote.
+	PhysPaths bool `json:"phys_paths"`
 }
 
 // Result is what a run reports besides its trace.
@@ -127,6 +139,21 @@ type Driver struct {
 	scriptPos int
 	frozen    bool
 	frozenAt  int
+	fmu       sync.Mutex
+	filePath  map[string]string // file key -> canonical path it was written to
+	fileJob   map[string]string // file key -> writing job
+	extras    map[string]string // job key -> unreferenced file it wrote
+	tmps      map[string]string // job key -> temporary file it wrote
+	goid      string
+	jrng      *rand.Rand
+	vdrBegin  int
+	vdrLocked int
+	removed   vdrTotals
+}
+
+type vdrTotals struct {
+	Entries, Bytes, Files, FileBytes int64
+	Paths                            []string
 }
 
 type devNull struct{}
@@ -192,6 +219,26 @@ func (d *Driver) hook(ev string, kv ...string) {
 	if ev == "NodeState" && len(kv) >= 6 && kv[3] == kv[5] {
 		return // unchanged
 	}
+	switch ev {
+	case "VdrBegin":
+		d.fmu.Lock()
+		d.vdrBegin++
+		var wait time.Duration
+		if d.spec.VdrJitter > 0 && goid() != d.goid {
+			wait = time.Duration(d.jrng.Intn(d.spec.VdrJitter)) * time.Microsecond
+		}
+		d.fmu.Unlock()
+		if wait > 0 {
+			time.Sleep(wait)
+		}
+	case "VdrLocked":
+		d.fmu.Lock()
+		d.vdrLocked++
+		d.fmu.Unlock()
+	case "VdrRemove":
+		d.vdrRemove(kv)
+		return
+	}
 	args := make([]interface{}, 0, len(kv)+4)
 	for i := 0; i+1 < len(kv); i += 2 {
 		v := kv[i+1]
@@ -222,6 +269,187 @@ func (d *Driver) exec(vj *core.VerifJob) {
 	d.jobs = append(d.jobs, j)
 	d.res.Execs[key+"#submit"]++
 	d.tr.Emit("JobSubmitted", "job", key, "known", j.inv != nil, "md", d.rel(vj.MetadataPath))
+}
+
+func goid() string {
+	var buf [64]byte
+	n := runtime.Stack(buf[:], false)
+	f := strings.Fields(string(buf[:n]))
+	if len(f) > 1 {
+		return f[1]
+	}
+	return ""
+}
+
+// canon resolves symbolic links in the directory part of p.
+func canon(p string) string {
+	if d, err := filepath.EvalSymlinks(path.Dir(p)); err == nil {
+		return path.Join(d, path.Base(p))
+	}
+	return p
+}
+
+func inside(p, dir string) bool { return p == dir || strings.HasPrefix(p, dir+"/") }
+
+// vdrRemove: mrp is about to remove kv[path].  Measures what is there and
+// lists the files written by stage code that lie under it.
+func (d *Driver) vdrRemove(kv []string) {
+	var p, fork, why string
+	for i := 0; i+1 < len(kv); i += 2 {
+		switch kv[i] {
+		case "path":
+			p = kv[i+1]
+		case "fork":
+			fork = kv[i+1]
+		case "why":
+			why = kv[i+1]
+		}
+	}
+	var entries, bytes, files, fbytes int64
+	var under []string
+	// mrp's unit of account: every directory entry below (and including) a killed
+	// path with its lstat size; of a temporary directory only the contents
+	tmpRoot := strings.HasSuffix(why, "_tmp")
+	if li, err := os.Lstat(p); err == nil && li.Mode()&os.ModeSymlink != 0 {
+		entries, bytes = 1, li.Size() // only the link goes
+	} else if err == nil {
+		filepath.Walk(p, func(wp string, info os.FileInfo, err error) error {
+			if err == nil {
+				if tmpRoot && wp == p {
+					return nil
+				}
+				entries++
+				bytes += info.Size()
+				if info.Mode().IsRegular() {
+					files++
+					fbytes += info.Size()
+				}
+			}
+			return nil
+		})
+		cp := canon(p)
+		d.fmu.Lock()
+		for k, fp := range d.filePath {
+			if inside(fp, cp) {
+				under = append(under, k)
+			}
+		}
+		d.fmu.Unlock()
+		sort.Strings(under)
+	}
+	// (a path whose parent is gone already cannot be resolved: compare both spellings)
+	outside := !inside(canon(p), canon(d.psdir)) && !inside(p, d.psdir) && !inside(canon(p), d.psdir)
+	d.fmu.Lock()
+	d.removed.Entries += entries
+	d.removed.Bytes += bytes
+	d.removed.Files += files
+	d.removed.FileBytes += fbytes
+	d.removed.Paths = append(d.removed.Paths, p)
+	d.fmu.Unlock()
+	d.tr.Emit("VdrRemove", "fork", fork, "path", d.rel(p), "why", why, "files", under,
+		"entries", entries, "bytes", bytes, "outside", outside)
+}
+
+func fileContent(key string) []byte {
+	n := 40
+	for _, c := range key {
+		n = (n*31 + int(c)) % 900
+	}
+	line := "content of " + key + "\n"
+	var b []byte
+	for len(b) < n+len(line) {
+		b = append(b, line...)
+	}
+	return b
+}
+
+func (d *Driver) resolve(f FileRef) string {
+	d.fmu.Lock()
+	defer d.fmu.Unlock()
+	return d.filePath[f.Key()]
+}
+
+// checkFiles: which of the files named in v are missing or damaged.
+func (d *Driver) checkFiles(v interface{}) []string {
+	var missing []string
+	seen := map[string]bool{}
+	for _, f := range FilesIn(v, nil) {
+		if seen[f.Key()] {
+			continue
+		}
+		seen[f.Key()] = true
+		p := d.resolve(f)
+		if strings.HasSuffix(f.Name, ".d") {
+			p = path.Join(p, "a.dat")
+		}
+		if b, err := os.ReadFile(p); err != nil {
+			missing = append(missing, f.Key())
+		} else if string(b) != string(fileContent(f.Key())) {
+			missing = append(missing, f.Key()+"(content)")
+		}
+	}
+	return missing
+}
+
+// writeFiles: the job writes the files its predicted outputs name, an
+// unreferenced file, and returns the outputs with real paths.
+func (d *Driver) writeFiles(j *job, outs interface{}) interface{} {
+	md := j.vj.MetadataPath
+	prepop, _ := readJSON(path.Join(md, "_outs"))
+	pm, _ := prepop.(map[string]interface{})
+	om, _ := outs.(map[string]interface{})
+	myChunk := -1
+	if j.inv.Kind == "main" {
+		if _, split := d.byKey[j.inv.Inst+"/split/0"]; split {
+			myChunk = j.inv.Chunk
+		}
+	}
+	os.MkdirAll(j.vj.FilesPath, 0755)
+	for _, f := range FilesIn(outs, nil) {
+		if f.Producer != j.inv.Inst || f.Chunk != myChunk {
+			continue
+		}
+		p := path.Join(j.vj.FilesPath, f.Name)
+		for k, v := range om {
+			if fr, ok := v.(FileRef); ok && fr == f {
+				if s, ok := pm[k].(string); ok && s != "" {
+					p = s // the path mrp proposed for this output
+				}
+			}
+		}
+		if d.spec.PhysPaths {
+			// a stage that reports the fully resolved name of what it wrote
+			// (os.path.realpath, getcwd)
+			if dir, err := filepath.EvalSymlinks(path.Dir(p)); err == nil {
+				p = path.Join(dir, path.Base(p))
+			}
+		}
+		if strings.HasSuffix(f.Name, ".d") {
+			// a directory output with two files in it
+			os.MkdirAll(p, 0755)
+			writeFile(path.Join(p, "a.dat"), fileContent(f.Key()))
+			writeFile(path.Join(p, "b.dat"), []byte("second file of "+f.Key()+"\n"))
+		} else {
+			writeFile(p, fileContent(f.Key()))
+			// an unreferenced file whose name extends the output's name
+			sib := p + ".idx"
+			writeFile(sib, []byte("index of "+f.Key()+"\n"))
+			d.fmu.Lock()
+			d.extras[j.key+"##"+f.Name] = canon(sib)
+			d.fmu.Unlock()
+		}
+		d.fmu.Lock()
+		d.filePath[f.Key()] = canon(p)
+		d.fileJob[f.Key()] = j.key
+		d.fmu.Unlock()
+		d.tr.Emit("FileWritten", "job", j.key, "file", f.Key(), "path", d.rel(p))
+	}
+	ex := path.Join(j.vj.FilesPath, "extra.dat")
+	writeFile(ex, []byte("unreferenced file of "+j.key+"\n"))
+	d.fmu.Lock()
+	d.extras[j.key] = canon(ex)
+	d.fmu.Unlock()
+	return Resolve(outs, d.resolve)
 }
 
 func writeFile(p string, b []byte) error { return os.WriteFile(p, b, 0644) }
@@ -285,7 +513,7 @@ func (d *Driver) begin(j *job) {
 			argsOk, detail = false, "_args is not an object"
 		} else {
 			am = StripInternal(am)
-			if !SameLax(pred, am, nil) {
+			if !SameLax(pred, am, d.resolve) {
 				argsOk = false
 				detail = "predicted " + Canon(pred) + " got " + Canon(am)
 			}
@@ -296,7 +524,7 @@ func (d *Driver) begin(j *job) {
 			ac, err := readJSON(path.Join(j.vj.MetadataPath, "_chunk_outs"))
 			if err != nil {
 				argsOk, detail = false, "cannot read _chunk_outs: "+err.Error()
-			} else if !chunkOutsSame(pc, ac) {
+			} else if !chunkOutsSame(pc, ac, d.resolve) {
 				argsOk = false
 				detail = "chunk outs predicted " + Canon(pc) + " got " + Canon(ac)
 			}
@@ -305,7 +533,24 @@ func (d *Driver) begin(j *job) {
 	if !argsOk {
 		d.res.ArgsBad = append(d.res.ArgsBad, j.key+": "+detail)
 	}
-	d.tr.Emit("StageBegin", "job", j.key, "known", j.inv != nil, "argsOk", argsOk, "attempt", j.attempt)
+	var missing []string
+	if d.spec.Files && j.inv != nil {
+		// what a stage does first: open the files named in its arguments
+		pa, _ := Untag(j.inv.Args)
+		missing = d.checkFiles(pa)
+		if j.inv.Kind == "join" {
+			pc, _ := Untag(j.inv.Couts)
+			missing = append(missing, d.checkFiles(pc)...)
+		}
+		tmp := path.Join(j.vj.MetadataPath, "tmp")
+		os.MkdirAll(tmp, 0755)
+		writeFile(path.Join(tmp, "scratch.dat"), []byte("temporary file of "+j.key+"\n"))
+		d.fmu.Lock()
+		d.tmps[j.key] = path.Join(tmp, "scratch.dat")
+		d.fmu.Unlock()
+	}
+	d.tr.Emit("StageBegin", "job", j.key, "known", j.inv != nil, "argsOk", argsOk, "attempt", j.attempt,
+		"missing", missing)
 	// record a pid in _jobinfo as the job monitor does (a pid that is not alive,
 	// so that a restarted mrp recognises the job as orphaned)
 	if ji, err := readJSON(path.Join(j.vj.MetadataPath, "_jobinfo")); err == nil {
@@ -320,7 +565,7 @@ func (d *Driver) begin(j *job) {
 }
 
 // the join sees, per chunk, the chunk's declared outputs (possibly among others)
-func chunkOutsSame(pred, act interface{}) bool {
+func chunkOutsSame(pred, act interface{}, resolve func(FileRef) string) bool {
 	p, ok1 := pred.([]interface{})
 	a, ok2 := act.([]interface{})
 	if !ok1 || !ok2 || len(p) != len(a) {
@@ -330,7 +575,7 @@ func chunkOutsSame(pred, act interface{}) bool {
 		pm, _ := p[i].(map[string]interface{})
 		am, _ := a[i].(map[string]interface{})
 		for k, v := range pm {
-			if !Same(v, am[k], nil) {
+			if !Same(v, am[k], resolve) {
 				return false
 			}
 		}
@@ -369,6 +614,9 @@ func (d *Driver) end(j *job) {
 			outs, err := Untag(j.inv.Outs)
 			if err != nil {
 				panic(err)
+			}
+			if d.spec.Files {
+				outs = d.writeFiles(j, outs)
 			}
 			b, _ := json.Marshal(outs)
 			writeFile(path.Join(md, "_outs"), b)
@@ -463,7 +711,9 @@ func Run(spec *Spec, workdir string) (res *Result) {
 	util.SetPrintLogger(devNull{})
 	res = &Result{Name: spec.Name, Execs: map[string]int{}, Ended: map[string]string{}}
 	d := &Driver{spec: spec, tr: &Trace{}, res: res, byKey: map[string]*Inv{},
-		forks: map[string]core.VerifForkInfo{}, psid: "ps"}
+		forks: map[string]core.VerifForkInfo{}, psid: "ps",
+		filePath: map[string]string{}, fileJob: map[string]string{}, extras: map[string]string{},
+		tmps: map[string]string{}, goid: goid(), jrng: rand.New(rand.NewSource(spec.Sched.Seed + 7))}
 	for i := range spec.Invs {
 		d.byKey[spec.Invs[i].Key()] = &spec.Invs[i]
 	}
@@ -485,6 +735,11 @@ func Run(spec *Spec, workdir string) (res *Result) {
 		defer os.RemoveAll(root)
 	}
 	d.psdir = path.Join(root, "ps")
+	if spec.PhysPaths {
+		os.MkdirAll(path.Join(root, "real"), 0755)
+		os.Symlink("real", path.Join(root, "link"))
+		d.psdir = path.Join(root, "link", "ps")
+	}
 	mroPath := path.Join(root, "mro")
 	os.MkdirAll(mroPath, 0755)
 	srcPath := path.Join(mroPath, "p.mro")
@@ -687,6 +942,81 @@ func (d *Driver) loop(ctx context.Context) {
 	d.res.Stuck = true
 }
 
+// finalSweep does what cmd/mrp's cleanupCompleted does (final VDR pass,
+// post-processing) and records what is left of the files stage code wrote.
+func (d *Driver) finalSweep(ctx context.Context) {
+	var rep *core.VDRKillReport
+	if d.spec.Vdr != "" && d.spec.Vdr != "disable" {
+		rep = d.ps.VDRKill()
+		// asynchronous cleanup goroutines: each takes its fork's storage lock; the
+		// sweep above went through all of them afterwards
+		for i := 0; i < 400; i++ {
+			d.fmu.Lock()
+			done := d.vdrBegin == d.vdrLocked
+			d.fmu.Unlock()
+			if done {
+				break
+			}
+			time.Sleep(5 * time.Millisecond)
+		}
+		time.Sleep(10 * time.Millisecond)
+	}
+	d.tr.Emit("VdrSweepDone")
+	d.ps.PostProcess()
+	d.fmu.Lock()
+	defer d.fmu.Unlock()
+	var present, damaged, gone []string
+	for k, p := range d.filePath {
+		if strings.HasSuffix(k, ".d") {
+			p = path.Join(p, "a.dat")
+		}
+		if b, err := os.ReadFile(p); err != nil {
+			gone = append(gone, k)
+		} else if string(b) != string(fileContent(k)) {
+			damaged = append(damaged, k)
+		} else {
+			present = append(present, k)
+		}
+	}
+	var extras, tmps []string
+	for j, p := range d.extras {
+		if _, err := os.Stat(p); err == nil {
+			if i := strings.Index(j, "##"); i >= 0 {
+				j = j[:i]
+			}
+			if len(extras) == 0 || extras[len(extras)-1] != j {
+				extras = append(extras, j)
+			}
+		}
+	}
+	for j, p := range d.tmps {
+		if _, err := os.Lstat(path.Dir(p)); err == nil {
+			if ents, _ := os.ReadDir(path.Dir(p)); len(ents) > 0 {
+				tmps = append(tmps, j)
+			}
+		}
+	}
+	sort.Strings(present)
+	sort.Strings(damaged)
+	sort.Strings(gone)
+	sort.Strings(extras)
+	sort.Strings(tmps)
+	var listedExists []string
+	var count, size int64 = -1, -1
+	if rep != nil {
+		count, size = int64(rep.Count), int64(rep.Size)
+		for _, p := range rep.Paths {
+			if _, err := os.Lstat(p); err == nil {
+				listedExists = append(listedExists, d.rel(p))
+			}
+		}
+	}
+	d.tr.Emit("VdrFinal", "present", present, "damaged", damaged, "gone", gone, "extras", extras, "tmps", tmps,
+		"report_count", count, "report_size", size, "listed_exists", listedExists,
+		"removed_entries", d.removed.Entries, "removed_bytes", d.removed.Bytes,
+		"removed_files", d.removed.Files, "removed_file_bytes", d.removed.FileBytes)
+}
+
 func (d *Driver) finish(ctx context.Context) {
 	res := d.res
 	if res.State == string(core.Failed) {
@@ -715,12 +1045,15 @@ func (d *Driver) finish(ctx context.Context) {
 		if len(d.spec.TopOuts) > 0 {
 			pred, err := Untag(d.spec.TopOuts)
 			if err == nil {
-				res.OutsOk = SameLax(pred, res.TopOuts, nil)
+				res.OutsOk = SameLax(pred, res.TopOuts, d.resolve)
 				if !res.OutsOk {
 					res.Notes = append(res.Notes, "top outs predicted "+Canon(pred)+" got "+Canon(res.TopOuts))
 				}
 			}
 		}
+	}
+	if d.spec.Files && res.State == string(core.Complete) {
+		d.finalSweep(ctx)
 	}
 	res.ForkDirs = d.ps.VerifForkDirs()
 	// every job directory that has a _jobinfo
